@@ -274,6 +274,7 @@ func verifyFunction(w *World, fn *ssa.Function, spec *FuncSpec) (vc *VC) {
 	if len(spec.Ensures2) > 0 {
 		vc.relational(fr, spec)
 	}
+	vc.checkIfaceFrame(fn, spec)
 	// loop bodies reachable (invariants not contradictory)
 	for h := range fr.loopOrd {
 		if r, ok := fr.reachIn[h]; ok && r != "false" {
@@ -763,4 +764,56 @@ func (vc *VC) modCompQuiet(m Expr, spec *FuncSpec) []string {
 		return vc.modCompQuiet(m.X, spec)
 	}
 	return nil
+}
+
+// checkIfaceFrame: a method that can be reached through an interface whose method carries a contract
+// may change no more ghost state than that interface contract tells callers it changes (callers havoc
+// only the interface's modifies set). Checked syntactically on the declared ghost components.
+func (vc *VC) checkIfaceFrame(fn *ssa.Function, spec *FuncSpec) {
+	if fn.Signature.Recv() == nil || len(spec.Modifies) == 0 {
+		return
+	}
+	rt := fn.Signature.Recv().Type()
+	isGhost := map[string]bool{}
+	for _, g := range vc.db.Ghosts {
+		isGhost[g.Name] = true
+	}
+	var keys []string
+	for k, is := range vc.db.Funcs {
+		if is.IsIface && strings.HasSuffix(k, "."+fn.Name()) {
+			keys = append(keys, k)
+		}
+	}
+	sort.Strings(keys)
+	for _, k := range keys {
+		is := vc.db.Funcs[k]
+		i := strings.LastIndex(k, ".")
+		it := vc.lookupType("", k[:i])
+		if it == nil {
+			continue
+		}
+		iface, ok := it.Underlying().(*types.Interface)
+		if !ok || !(types.Implements(rt, iface) || types.Implements(types.NewPointer(rt), iface)) {
+			continue
+		}
+		if is.Trusted && len(is.Modifies) == 0 {
+			continue
+		}
+		allowed := map[string]bool{}
+		for _, m := range is.Modifies {
+			for _, c := range vc.modCompQuiet(m, is) {
+				allowed[c] = true
+			}
+		}
+		for _, m := range spec.Modifies {
+			for _, c := range vc.modCompQuiet(m, spec) {
+				if _, priv := vc.db.Private[c]; priv {
+					continue // no contract outside the owning packages can mention it
+				}
+				if isGhost[c] && !allowed[c] {
+					vc.unsupportedf("frame: %s declares `modifies %s`, which the interface contract %s (through which it is called) does not list", vc.name, c, k)
+				}
+			}
+		}
+	}
 }
